@@ -34,7 +34,15 @@ fn main() {
     }
     let cmd = args[0].as_str();
     let rest = &args[1..];
-    let code = match rest[0].as_str() {
+    let code = std::panic::catch_unwind(|| run(cmd, rest)).unwrap_or_else(|_| {
+        println!("HARNESS-ERROR the harness itself panicked (see stderr)");
+        2
+    });
+    std::process::exit(code);
+}
+
+fn run(cmd: &str, rest: &[String]) -> i32 {
+    match rest[0].as_str() {
         "C01" => dispatch::<scn::c01_load::C01>(cmd, rest),
         "C02" => dispatch::<scn::c02_total::C02>(cmd, rest),
         "C04" => dispatch::<scn::c04_c05_session::C04>(cmd, rest),
@@ -49,6 +57,5 @@ fn main() {
             eprintln!("property {other} is not claimed by this engine");
             2
         }
-    };
-    std::process::exit(code);
+    }
 }
